@@ -1001,6 +1001,19 @@ func nearValue(r *RNG, leaf *Node, idc *int) *AV {
 		}
 		return fltNear(v)
 	case "slist":
+		if r.Chance(1, 10) {
+			// a multi-valued attribute with the very elements of the literal (same length), not in order and in other letter
+			// cases: a []string or a []interface{}
+			els := make([]string, len(l.Elems))
+			for i, e := range l.Elems {
+				els[i] = e[1 : len(e)-1]
+				if r.Chance(1, 2) {
+					els[i] = swapCase(els[i])
+				}
+			}
+			r.Shuffle(len(els), func(a, b int) { els[a], els[b] = els[b], els[a] })
+			return &AV{K: AVOther, Tag: pick(r, []int{19, 8}), Strs: els}
+		}
 		e := pick(r, l.Elems)
 		return strNear(e[1 : len(e)-1])
 	}
